@@ -501,3 +501,37 @@ pub fn parse_sexpr(input: &str) -> Result<Vec<String>, usize> {
         Err((_, errors)) => Err(errors.len().max(1)),
     }
 }
+
+// ---------------------------------------------------------------------------------------------
+// Step budget: lets the harness bound the run time (and memory) of generated programs
+// ---------------------------------------------------------------------------------------------
+
+pub const STEP_BUDGET_MESSAGE: &str = "verif-hooks: step budget exhausted";
+
+thread_local! {
+    static STEP_BUDGET: std::cell::Cell<u64> = const { std::cell::Cell::new(u64::MAX) };
+}
+
+/// Sets the number of VM instructions this thread may execute before every further
+/// instruction fails with a `UserError(STEP_BUDGET_MESSAGE)`. `u64::MAX` disables the budget.
+pub fn set_step_budget(steps: u64) {
+    STEP_BUDGET.with(|b| b.set(steps));
+}
+
+pub fn remaining_step_budget() -> u64 {
+    STEP_BUDGET.with(|b| b.get())
+}
+
+pub(crate) fn step_budget_exhausted() -> bool {
+    STEP_BUDGET.with(|b| {
+        let v = b.get();
+        if v == u64::MAX {
+            false
+        } else if v == 0 {
+            true
+        } else {
+            b.set(v - 1);
+            false
+        }
+    })
+}
